@@ -220,6 +220,10 @@ def load(env=True, stub_readme=True, pkg=None):
         # sides of every comparison; keep the real function (concrete strings).
         if stub_readme:
             _install_readme_stubs(package)
+        else:
+            w = holes.wrap_keep(package.utils.wrap)
+            for m in ('utils', 'array', 'raggedarray', 'readcodearray', 'readcoderaggedarray'):
+                setattr(getattr(package, m), 'wrap', w)
     _loaded[key] = package
     return package
 
